@@ -98,6 +98,7 @@ def main():
             sys.exit(1)
         newobs = np.tile(np.expand_dims(obs, 3), [1, 1, 1, M])
         pit = np.mean(ens < newobs, axis=3)
+        pit[np.isnan(obs)] = np.nan
         """
         # approach b)
         for i in range(0, obs.shape[0]):
